@@ -25,7 +25,7 @@ func init() {
 		Run: func(w *mon.Worker) { runRefcount(w, "C08") }, Workers: 16, GOMAXPROCS: 4,
 		QuickTimeout: 8 * time.Minute, ThoroughTimeout: 40 * time.Minute,
 		QuickFloor: 1500, ThoroughFloor: 40000, CaseTimeout: 8 * time.Second,
-		RequiredCounters: []string{"release_funcs_checked_inside", "quiescent_release_audits", "stale_resolver_results", "final_all_released_audits", "RefCountLock"},
+		RequiredCounters: []string{"release_funcs_checked_inside", "quiescent_release_audits", "stale_resolver_results", "final_all_released_audits", "drop_causes_checked", "stale_released_calls", "setcontext_same_context_calls", "RefCountLock"},
 		Rule: "each case runs 2-4 reference actors (AddRef with and without callback, Release, double Release), an invalidator calling released() of the newest value, a context changer (SetContext new/same, ClearContext, cancelling the root context behind the container's back) and consumers (Wait/Resolve/ResolveWithReleased/Access) against a resolver with scripted outcomes (value, error, error with release func, slow, returns a value after its context was cancelled), both keep-unreferenced settings; " +
 			"every release function counts itself and inspects the target container and the per-reference 'last callback' table from inside the call; at quiescence and after a final ClearContext the release counts are audited; non-trivial = at least one stale resolver result or one released() racing the last Release; distinct = distinct event orders",
 		Assumptions: rfAssume,
@@ -64,6 +64,9 @@ type rfGen struct {
 	retA        atomic.Int64
 	ctxEpoch    int64
 	ccStart     int64 // w.ccStart at entry
+	delivered   atomic.Int64 // stamp at which a reference callback was first told this result (0 = never); set under the RefCount mutex
+	dCtxEpoch   atomic.Int64 // w.ctxEpoch / w.zeroEpoch at that moment
+	dZeroEpoch  atomic.Int64
 	relCount    atomic.Int64
 	relStamp    atomic.Int64
 	zeroEpoch   int64
@@ -97,6 +100,7 @@ type rfWorld struct {
 	active    atomic.Int64
 	ctxEpoch  atomic.Int64
 	ccStart   atomic.Int64 // SetContext(fresh context) calls started (such a call always replaces the context)
+	endingCase atomic.Bool // the case is winding down: references are released and the context cleared without bookkeeping
 	// heldCount is a lower bound of the references the library knows (incremented after AddRef returned,
 	// decremented before Release is called); zeroEpoch counts how often it reached zero
 	heldCount atomic.Int64
@@ -227,6 +231,7 @@ func (w *rfWorld) releaseFn(gen *rfGen) {
 	}
 	gen.relStamp.Store(st)
 	if gen.Val() == nil && gen.Err() != nil {
+		w.dropCause(gen, gen.invalid.Load() != 0 || w.ctxEpoch.Load() != gen.ctxEpoch || gen.ctxEpoch%2 == 1)
 		// an error result with a release func: no held reference may still believe it is the current result
 		w.mu.Lock()
 		hs := append([]*rfHolder(nil), w.holders...)
@@ -249,6 +254,7 @@ func (w *rfWorld) releaseFn(gen *rfGen) {
 	}
 	// ctxEpoch is incremented before and after every context call: odd = a call was in flight
 	excused := gen.invalid.Load() != 0 || w.ctxEpoch.Load() != gen.ctxEpoch || gen.ctxEpoch%2 == 1
+	w.dropCause(gen, excused)
 	w.mu.Lock()
 	hs := append([]*rfHolder(nil), w.holders...)
 	w.mu.Unlock()
@@ -264,6 +270,23 @@ func (w *rfWorld) releaseFn(gen *rfGen) {
 			c.Violate("release", "refcount-premature-release", "the release function of g%d runs while %s holder %d still holds that value, and the value was neither invalidated nor the context changed", gen.g, h.kind, h.id)
 			return
 		}
+	}
+}
+
+// dropCause: a result (value or error with a release function) is dropped only for a reason - its released() was
+// called, the context was changed or cleared, or the last reference went away. The harness's reference count is a
+// lower bound of the container's (it is raised after AddRef returned and lowered before Release is called), so
+// "references were held all the time since the resolver call entered" is certain when zeroEpoch has not moved.
+func (w *rfWorld) dropCause(gen *rfGen, excused bool) {
+	if excused || w.endingCase.Load() || gen.delivered.Load() == 0 {
+		// only results that were delivered are judged: a resolve goroutine may be superseded before its resolver even
+		// enters, and its result is then rightly released at once
+		return
+	}
+	w.c.Count("drop_causes_checked", 1)
+	de := gen.dCtxEpoch.Load()
+	if de%2 == 0 && de == w.ctxEpoch.Load() && gen.dZeroEpoch.Load() == w.zeroEpoch.Load() && w.heldCount.Load() > 0 {
+		w.c.Violate("release", "refcount-result-dropped-without-cause", "the release function of g%d (val %s err %v) runs although it had been delivered to a reference callback, its released() was never called, the context was neither changed nor cleared since that delivery, and references were held the whole time (%d now): nothing justifies dropping the result", gen.g, valID(gen.Val()), gen.Err(), w.heldCount.Load())
 	}
 }
 
@@ -301,6 +324,19 @@ func (w *rfWorld) refCb(h *rfHolder) func(bool, *rfVal, error) {
 		} else {
 			h.val.Store(nil)
 		}
+		if resolved && !w.sameValue {
+			var g *rfGen
+			if err == nil {
+				g = w.genOf(v)
+			} else {
+				g = w.genOfErr(err)
+			}
+			if g != nil && w.heldCount.Load() > 0 && g.delivered.Load() == 0 {
+				g.dCtxEpoch.Store(w.ctxEpoch.Load())
+				g.dZeroEpoch.Store(w.zeroEpoch.Load())
+				g.delivered.Store(w.c.Stamp())
+			}
+		}
 		if resolved && err == nil && h.id%7 == 3 && !w.sameValue && h.cbCount.Load() == 1 {
 			// a reference callback may invalidate the value it was just told about: released() is documented to be
 			// callable from anywhere, also from inside a callback that runs under the container's lock
@@ -327,6 +363,15 @@ func (w *rfWorld) genOf(v *rfVal) *rfGen {
 	return nil
 }
 
+func (w *rfWorld) genOfErr(err error) *rfGen {
+	for _, g := range w.genList() {
+		if g.Err() != nil && g.Err() == err {
+			return g
+		}
+	}
+	return nil
+}
+
 func runRefcount(w *mon.Worker, prop string) {
 	mon.SetMaxSleep(120 * time.Microsecond)
 	n := w.Share(w.Scale(12000, 1500000))
@@ -347,6 +392,12 @@ func runRefcount(w *mon.Worker, prop string) {
 		w.Case("zero-value", nil, func(c *mon.Case) { rfZeroValueCase(c, prop) })
 	}
 	mon.ClearProb()
+	if prop == "C10" {
+		// consumers depend on it too: a result obtained after the owner cancelled the root context is still delivered
+		for i := 0; i < w.Share(w.Scale(400, 50000)); i++ {
+			w.Case("root-cancel-in-flight", nil, rfRootCancelCase)
+		}
+	}
 	if prop == "C09" {
 		for i := 0; i < w.Share(w.Scale(800, 100000)); i++ {
 			w.Case("gated-resolver", nil, rfGatedCase)
@@ -425,6 +476,8 @@ func refcountCase(c *mon.Case, prop string, idx int) {
 	rootCtx, rootCancel := context.WithCancel(context.Background())
 	defer rootCancel()
 	withCtx := r.IntN(2) == 0
+	var errSnapP *error
+	var errSnapE error
 	w := newRfWorld(c, keepUnref, sameValue, withCtx, rootCtx, behave)
 	defer close(w.endCase)
 	cx := &rtCtxs{}
@@ -538,6 +591,14 @@ func refcountCase(c *mon.Case, prop string, idx int) {
 			if burst && i%2 == 0 {
 				reps = 2 + i%3
 			}
+			if len(gl) >= 2 && i%4 == 3 {
+				// a late released() of a result that was replaced long ago: documented to do nothing (no mark: it excuses nothing)
+				old := gl[i%(len(gl)-1)]
+				if old.Ret() != 0 && old.released != nil && (old.relCount.Load() != 0 || !old.HasRel()) {
+					c.Count("stale_released_calls", 1)
+					old.released()
+				}
+			}
 			for q := 0; q < reps; q++ {
 				gl = w.genList()
 				g = gl[len(gl)-1]
@@ -569,13 +630,23 @@ func refcountCase(c *mon.Case, prop string, idx int) {
 	nCtx := r.IntN(7)
 	c.Go("ctx", func() {
 		x := &xorshift{x: seedB | 1}
+		// containerCtx is what the container was last given (rootCtx by the constructor if withCtx)
+		var containerCtx context.Context
+		if withCtx {
+			containerCtx = rootCtx
+		}
 		for i := 0; i < nCtx && !stopped(); i++ {
 			for k := 0; k < 15; k++ {
 				runtime.Gosched()
 			}
 			ctxMu.Lock()
-			w.ctxEpoch.Add(1)
-			switch x.IntN(6) {
+			ctxOp := x.IntN(6)
+			// SetContext with the context the container already has is documented to do nothing: it is no excuse for anything
+			sameCtxOp := ctxOp == 4 && cx.cur != nil && containerCtx == cx.cur
+			if !sameCtxOp {
+				w.ctxEpoch.Add(1)
+			}
+			switch ctxOp {
 			case 0, 1, 2:
 				ctx, tag := cx.fresh()
 				done := x.IntN(8) == 0
@@ -587,16 +658,22 @@ func refcountCase(c *mon.Case, prop string, idx int) {
 				c.Rec("ctx", fmt.Sprint("SetContext new#", tag, " done=", done), nil)
 				w.ccStart.Add(1)
 				w.rc.SetContext(ctx)
+				containerCtx = ctx
 				ctxLive, ctxCleared, ctxRootCancelled = !done, false, done
 				curRoot = cx.cancel
 			case 3:
 				c.Rec("ctx", "ClearContext", nil)
 				w.rc.ClearContext()
+				containerCtx = nil
 				ctxLive, ctxCleared, ctxRootCancelled = false, true, false
 			case 4:
 				if cx.cur != nil {
-					c.Rec("ctx", "SetContext same", nil)
+					c.Rec("ctx", fmt.Sprint("SetContext with the last context (the container's current one: ", sameCtxOp, ")"), nil)
+					if sameCtxOp {
+						c.Count("setcontext_same_context_calls", 1)
+					}
 					w.rc.SetContext(cx.cur)
+					containerCtx = cx.cur
 					ctxLive, ctxCleared = cx.cur.Err() == nil, false
 				}
 			default:
@@ -606,7 +683,9 @@ func refcountCase(c *mon.Case, prop string, idx int) {
 					ctxLive, ctxRootCancelled = false, true
 				}
 			}
-			w.ctxEpoch.Add(1)
+			if !sameCtxOp {
+				w.ctxEpoch.Add(1)
+			}
 			ctxMu.Unlock()
 		}
 	})
@@ -866,7 +945,11 @@ func refcountCase(c *mon.Case, prop string, idx int) {
 					if pe := w.targetErr.GetValue(); pe != nil {
 						c.Violate("resolver", "refcount-stale-error-in-error-container", "the newest result g%d is a value, yet the error container still holds %v", g.g, *pe)
 					}
-				} else if pe := w.targetErr.GetValue(); pe == nil || *pe != g.Err() {
+				} else if pe := w.targetErr.GetValue(); pe != nil && *pe == g.Err() {
+					// what was published is a snapshot: it must still read the same after the container moved on
+					errSnapP, errSnapE = pe, *pe
+					c.Count("published_error_snapshots", 1)
+				} else if pe == nil || *pe != g.Err() {
 					c.Violate("resolver", "refcount-target-error-not-updated", "the newest result g%d is the error %v but the error container holds %v", g.g, g.Err(), pe)
 				}
 				for _, hr := range heldNow {
@@ -941,6 +1024,7 @@ func refcountCase(c *mon.Case, prop string, idx int) {
 	}
 
 	// ----- stop: cancel consumers, release held refs, clear context; everything must be released exactly once
+	w.endingCase.Store(true)
 	close(stop)
 	for _, cs := range consumers {
 		if cs.cancelStamp.Load() == 0 {
@@ -977,6 +1061,9 @@ func refcountCase(c *mon.Case, prop string, idx int) {
 	}
 	if pe := w.targetErr.GetValue(); pe != nil {
 		c.Violate("release", "refcount-target-error-not-cleared", "after ClearContext the error container still holds %v", *pe)
+	}
+	if errSnapP != nil && *errSnapP != errSnapE {
+		c.Violate("resolver", "refcount-published-error-changed", "the error pointer published in the error container read %v at the quiescent audit and reads %v after the container moved on: a delivered result changed after the fact", errSnapE, *errSnapP)
 	}
 
 	// ----- consumer returns
